@@ -1,7 +1,7 @@
 """C01 - child sequences are valid exactly when they are words of the content model."""
 import itertools
 
-from vk import env, modelkit as K
+from vk import env, modelkit as K, pinned
 from vk.gen import models as M
 from vk.ref import contentmodel as R
 
@@ -242,14 +242,22 @@ class Judge:
                 res.count('word:disputed_by_arbiter', len(cand))
                 res.inconclusive_case('arbiter sides with library', K.witness_text(node, cfg, w, version))
                 continue
-            mnode, mcfg, mword = K.shrink(node, cfg, w, lambda n2, c2, ws: self.failing_word(n2, c2, ws, version, direction))
+            # Is the wrong verdict the one the pinned model visitor gives (a listed weakness of the greedy visitor) or
+            # does the tree decide differently from it? The shrinker keeps that answer fixed (see DESIGN 3.5).
+            same0 = same_as_pinned(node, cfg, w, version, lib)
+            res.count(f'{version}:wrong_verdict:' + {True: 'same_as_pinned_visitor', False: 'differs_from_pinned_visitor',
+                                                      None: 'pinned_visitor_not_run'}[same0])
+            mnode, mcfg, mword = K.shrink(node, cfg, w, lambda n2, c2, ws: self.failing_word(n2, c2, ws, version, direction, same0))
             mech = classify(mnode, mcfg, mword, version, direction)
+            if same0 is False:
+                head, sep, tail = mech.partition(': ')
+                mech = head + ':not-the-verdict-of-the-pinned-visitor' + sep + tail
             res.violation(mech, {'node': mnode, 'cfg': mcfg, 'version': version, 'word': mword, 'direction': direction,
                                  'original': K.witness_text(node, cfg, w, version)},
                           f'{direction}: {K.witness_text(mnode, mcfg, mword, version)} (from {origin}: '
                           f'{K.witness_text(node, cfg, w)}; {len(cand)} words of this model)')
 
-    def failing_word(self, node, cfg, words, version, direction):
+    def failing_word(self, node, cfg, words, version, direction, same0='any'):
         if version == '1.0' and (cfg.get('open') or not K.expressible_10(node)):
             return None
         model = R.Model(node, cfg)
@@ -282,7 +290,22 @@ class Judge:
                 arb = K.arbiter_valid(node, cfg, word)
                 if arb is not None and arb == lib:
                     continue
+            if same0 != 'any' and same_as_pinned(node, cfg, word, version, lib) != same0:
+                continue
             return word
+        return None
+
+
+def same_as_pinned(node, cfg, word, version, lib):
+    """Does the frozen copy of the pinned model visitors (vk/pinned.py), run inside the live library on the same
+    schema and word, give the verdict the tree gave? None if it cannot be run."""
+    status, schema = K.build_model_schema(node, cfg, version)
+    if status != 'ok':
+        return None
+    try:
+        with pinned.pinned_model_visitors():
+            return K.lib_valid(schema, word) == lib
+    except Exception:
         return None
 
 
